@@ -77,6 +77,79 @@ def combined_access_support(ld, r, count):
     return fails
 
 
+def consumer_stage_call_counts(ld, r, count):
+    """a consuming stage on top (single-thread prefetch, multi-worker prefetch, catch, a copy, the profiling wrapper) does not make the
+    stages below it work twice: per iteration every user function - including the function of a lazy apply and what it runs eagerly -
+    is called as often as when the pipeline below is iterated directly, and a seeded generator is advanced as often"""
+    import warnings
+    import numpy as np
+    from . import c12 as _c12
+    fails = []
+    with warnings.catch_warnings():
+        warnings.simplefilter('ignore')
+        for _ in range(count):
+            n = r.randint(1, 6)
+            seed = r.randint(0, 10 ** 6)
+            below = r.choice(['lazyapply_filter', 'lazyapply_sort', 'reshuffle', 'lazyapply_shuffle', 'map_only', 'lazyapply_nested'])
+            top = r.choice(['prefetch1', 'prefetch1', 'prefetch1_items', 'prefetch2', 'catch', 'copy', 'profile', 'prefetch1_catch'])
+
+            def build(with_top):
+                counts = {'load': 0, 'select': 0, 'keep': 0, 'post': 0}
+                rng = _c12.RecRng(seed)
+
+                def load(x):
+                    counts['load'] += 1
+                    return x
+
+                def keep(x):
+                    counts['keep'] += 1
+                    return x % 3 != 1
+
+                def post(x):
+                    counts['post'] += 1
+                    return x
+
+                def select(d):
+                    counts['select'] += 1
+                    if below == 'lazyapply_filter': return d.filter(keep, lazy=False)
+                    if below == 'lazyapply_sort': return d.sort(lambda x: -x)
+                    if below == 'lazyapply_shuffle': return d.shuffle(False, rng=rng)
+                    return d.apply(lambda e: e.filter(keep, lazy=False), lazy=True)
+                d = ld.new({f'key{i}': i for i in range(n)}).map(load)
+                if below == 'reshuffle': d = d.shuffle(True, rng=rng)
+                elif below != 'map_only': d = d.apply(select, lazy=True)
+                d = d.map(post)
+                if with_top:
+                    if top == 'prefetch1': d = d.prefetch(1, 2)
+                    elif top == 'prefetch1_items': d = d.prefetch(1, 2).items()
+                    elif top == 'prefetch2': d = d.prefetch(2, 2)
+                    elif top == 'catch': d = d.catch()
+                    elif top == 'copy': d = d.copy()
+                    elif top == 'profile': d = ld.core.ProfilingDataset(d)
+                    else: d = d.prefetch(1, 2, catch_filter_exception=True)
+                return d, counts, rng
+            try:
+                res = []
+                for with_top in (False, True):
+                    try:
+                        d, counts, rng = build(with_top)
+                    except Exception:
+                        if with_top:
+                            break               # this consumer refuses the pipeline loudly at construction (e.g. multi-worker prefetch above a lazy apply)
+                        raise
+                    per_iter = []
+                    for _e in range(2):
+                        before = (dict(counts), len(rng.draws))
+                        vals = sorted(x[1] if isinstance(x, tuple) else x for x in d)
+                        per_iter.append(({k: counts[k] - before[0][k] for k in counts}, len(rng.draws) - before[1], vals))
+                    res.append(per_iter)
+                if len(res) == 2 and res[0] != res[1]:
+                    fails.append(f'{top} on top of a pipeline with {below} below (n={n}): per iteration (calls, draws from the seeded generator, examples) = {res[1]}; the pipeline iterated directly gives {res[0]}'[:700])
+            except Exception as e:
+                fails.append(f'{top} above {below} (n={n}) raised {type(e).__name__}: {e}'[:300])
+    return fails
+
+
 def run(tier):
     from .. import model_e, common
     res = model_b.run_b('C08', tier, want_prof=False)
@@ -89,6 +162,10 @@ def run(tier):
     for msg in combined_access_support(common.import_impl(), common.rng_for('C08comb'), nca)[:5]:
         res['failures'].append(dict(kind='program', summary=msg, config=dict(kind='combined_access')))
     res['coverage']['combined_access_cases'] = nca
+    ncc = 200 if tier == 'quick' else 3000
+    for msg in consumer_stage_call_counts(common.import_impl(), common.rng_for('C08cons'), ncc)[:5]:
+        res['failures'].append(dict(kind='program', summary=msg, config=dict(kind='consumer_counts')))
+    res['coverage']['consumer_stage_count_cases'] = ncc
     return res
 
 
